@@ -330,10 +330,12 @@ class Engine:
         return (('D', v),)
 
     def eval_operand(self, st, frame, op):
-        if 'copy' in op:
-            return self.read(st, self.eval_place(st, frame, op['copy']))
-        if 'move' in op:
-            return self.read(st, self.eval_place(st, frame, op['move']))
+        if 'copy' in op or 'move' in op:
+            loc = self.eval_place(st, frame, op.get('copy') or op.get('move'))
+            if '<locked>' in loc and loc[-1] != '<locked>':
+                f = st.frame_fn.get(frame) or {}
+                st.events.append({'k': 'read', 'loc': loc, 'fn': f.get('path'), 'frame': frame, 'ln': None})
+            return self.read(st, loc)
         if 'const' in op:
             if 'int' in op and op['int'] is not None:
                 return ('const', op['int'])
